@@ -15,7 +15,7 @@ func init() {
 		{name: "scopes", pkg: "./c05", run: "^TestScopes$",
 			shards: [2]int{6, 16}, checks: [2]int{150, 6000}, timeout: [2]time.Duration{12 * min, 80 * min}},
 		{name: "flags", pkg: "./c05", run: "^TestFlags$",
-			shards: [2]int{6, 16}, checks: [2]int{60, 3000}, timeout: [2]time.Duration{12 * min, 80 * min}},
+			shards: [2]int{6, 16}, checks: [2]int{60, 1200}, timeout: [2]time.Duration{12 * min, 80 * min}},
 		{name: "fuzz-hostile", pkg: "./c05", fuzz: "FuzzHostileText",
 			shards: [2]int{0, 1}, fuzztime: [2]time.Duration{0, 6 * min}, timeout: [2]time.Duration{12 * min, 60 * min}},
 	}})
